@@ -238,10 +238,13 @@ ssize_t vt_write(int fd, const void* buf, size_t n)
     return write(fd, buf, n);
 }
 
+/* environment answer for sending (preset "sendint=<k>"): the k-th send is interrupted by a signal before anything left */
+static int g_send_int, g_send_calls;
 ssize_t vt_sendto(int fd, const void* buf, size_t n, int flags, const struct sockaddr* a, socklen_t l)
 {
     (void)fd; (void)flags; (void)a; (void)l;
     SP_PROBE();
+    if (++g_send_calls == g_send_int) { elog("SENDINT;"); errno = EINTR; return -1; }
     elog("PKT "); elog_hex(buf, n); elog(";");
     return (ssize_t)n;
 }
@@ -321,6 +324,7 @@ int main(int argc, char** argv)
             strcpy(evcopy, events);
             parse_events(evcopy);
             { const char* sl = strstr(presets, "sleeps="); if (sl) g_sleep_budget = atoi(sl + 7); }
+            { const char* sl = strstr(presets, "sendint="); g_send_calls = 0; g_send_int = sl ? atoi(sl + 8) : 0; }
             vt_presets(presets);
             int rc = ex_main(ac, av);
             fflush(stdout);
